@@ -94,7 +94,7 @@ def list_stream(ctx, res, n):
             return c2.lst
 
         def proxy_other(items):
-            c2 = s()
+            c2 = s() if rng.random() < 0.5 else cfg          # the sibling field's proxy, of another configuration or of this very one
             c2.other = [x for x in items]
             return c2.other
         wire_ops, kinds_used, iter_nonlist = [], set(), False
@@ -325,7 +325,7 @@ def dict_stream(ctx, res, n):
                 pass
         if not good:
             continue
-        keys_ok = ["a", "b ", " C", "dd", "e"]
+        keys_ok = ["a", " a", "A ", "b ", " B", " C", "c", "dd", "e"]      # several spellings of one stored key (strip; case when declared)
         cfg.dct = {}
         proxy = cfg.dct
         plain = {}
@@ -340,6 +340,10 @@ def dict_stream(ctx, res, n):
         for _ in range(rng.randint(5, 14)):
             r = rng.random()
             pairs = [kv() for _ in range(rng.randint(0, 3))]
+            if rng.random() < 0.25:
+                # one raw key repeated around a differently spelled raw key that is stored under the same key
+                k1, k2 = rng.choice([("a", " a"), ("a", "A "), ("b ", " B"), ("c", " C")])
+                pairs = [(k1, rng.choice(good)), (k2, rng.choice(good)), (k1, rng.choice(good))]
             pairs = [(k, v) for k, v in pairs if hashable(k)]
             form = rng.choice(["dict", "pairs", "proxy", "tuplepairs", "selfcopy"])
             kw = [kv(0.05) for _ in range(rng.randint(0, 2))] if rng.random() < 0.4 else []
